@@ -23,6 +23,12 @@ from . import core
 
 _cache: Optional[list[dict]] = None
 
+# programs whose own module-level values differ from run to run (clock, randomness, process ids): what pyanalyze renders
+# for them legitimately differs between processes, so they are no input for run-to-run comparisons (C10)
+_IMPURE = __import__("re").compile(
+    r"\b(now|utcnow|today|time\.time|time\(\)|monotonic|perf_counter|random|uuid|getpid|urandom|token_hex|id\()"
+)
+
 # test modules whose snippets need optional third-party packages or are not NameCheckVisitor programs
 SKIP_MODULES = {"test_self", "test_config", "test_ast_annotator", "test_node_visitor"}
 
@@ -98,6 +104,7 @@ def harvest(refresh: bool = False) -> list[dict]:
                         "settings": settings,
                         "kwargs": sorted(kwargs),
                         "_kwargs": kwargs,
+                        "impure": bool(_IMPURE.search(code)),
                     }
                 )
     _cache = items
